@@ -21,7 +21,7 @@ Definition src_get_active_backend (dk : ckind) (prefer : option Z) (require : op
   let uses_threads := (uses_threads (ck backend)) in
   let supports_sharedmem := (supports_sharedmem (ck backend)) in
   let force_threads := (((require =? 1) && (negb supports_sharedmem)) || ((negb explicit_backend) && ((prefer =? 1) && (negb uses_threads)))) in
-  let force_processes := ((prefer =? 2) && uses_threads) in
+  let force_processes := ((negb explicit_backend) && ((prefer =? 2) && uses_threads)) in
   if force_threads then (let sharedmem_backend := {| ck := BThr; clevel := nesting_level |} in
   let thread_config := backend_config in
   let thread_config := (set_njobs thread_config (Some (Some (1)))) in
